@@ -451,11 +451,34 @@ Fixpoint spec_tabor_steps (p : pt) (vals : list (name * Z)) (V : list name) (pre
   | _, _, _ => false
   end.
 
-Definition check_spec_tabor p vals V ups before after fresh : bool :=
+(* round 6, clause S4 on the implementation (SINGLE sequence mode; C15_tabor_single_marks is the model's theorem): per
+   played waveform, "its count is recorded as changeable" (Spec.table_marks: from volatile_parameter_positions only) is
+   what the scope-free specification says about the counts enclosing that waveform.  Judged on the first compilation and
+   on every fresh compilation (after an update to 0 the fresh program has fewer waveforms, so `after` is not judged). *)
+Definition tabor_marks_ok (p : pt) (vals : list (name * Z)) (V : list name) (mode : option tmode) (b : tab_obs) : bool :=
+  match mode, b with
+  | Some MSingle, Tb a t _ pos _ =>
+      match spec_program p vals V with
+      | Some (Some so) => list_eqb Bool.eqb (table_marks a (map (@length _) t) pos) (oleafmarks false so)
+      | _ => true
+      end
+  | _, _ => true
+  end.
+
+Fixpoint tabor_fresh_marks_ok (p : pt) (vals : list (name * Z)) (V : list name) (mode : option tmode)
+         (ups : list (list (name * Z))) (fresh : list tab_obs) : bool :=
+  match ups, fresh with
+  | us :: r, f :: fr => let vals' := override us vals in
+                        tabor_marks_ok p vals' V mode f && tabor_fresh_marks_ok p vals' V mode r fr
+  | _, _ => true
+  end.
+
+Definition check_spec_tabor p vals V mode ups before after fresh : bool :=
   if negb (forallb (fun us => keys_in us V) ups) then true else
   match before with
   | TbErr => true
-  | Tb _ _ _ _ _ => spec_tabor_steps p vals V before ups after fresh
+  | Tb _ _ _ _ _ => tabor_marks_ok p vals V mode before && tabor_fresh_marks_ok p vals V mode ups fresh &&
+                    spec_tabor_steps p vals V before ups after fresh
   end.
 
 
@@ -486,7 +509,7 @@ Definition check_spec_compat (V : list name) (ups : list (list (name * Z))) (bef
 Definition check_spec (c : case) : bool :=
   match c with
   | CTree p vals V pl ups before after fresh => check_spec_tree p vals V pl ups before after fresh
-  | CTabor p vals V _ _ _ _ ups before after fresh => check_spec_tabor p vals V ups before after fresh
+  | CTabor p vals V _ mode _ _ ups before after fresh => check_spec_tabor p vals V mode ups before after fresh
   | CFrac _ _ ups after fresh =>
       (* the updated count is the count of a fresh instantiation with the new values (which must exist) *)
       Nat.eqb (length after) (length ups) && Nat.eqb (length fresh) (length ups) &&
